@@ -6,6 +6,46 @@ NOTE_COMMON = ('Trusted: Lean 4.33 kernel + Mathlib v4.33 (axioms propext, Class
                'the hand-written model lean/PyGam/Model, and the correspondence harness that ties it to /repo on every run. ')
 
 CHECKS = {
+ 'C01': dict(
+   text='Theorems: the coded QR/SVD solve formula satisfies (and uniquely solves) the penalised normal equations under the LAPACK/Cholesky contracts for every number of rows k <, =, > m; a solution of the normal equations is the global minimiser of the penalised weighted least-squares criterion (exact excess formula); a fixed point of the model PIRLS step is exactly a zero of the score residual, whose summand is w asym (y - mu)/(V g\') (with C06/C07: -1/2 the gradient of the penalised deviance); ExpectileGAM likewise with asymmetric weights. Tied to /repo by evaluating the model PIRLS step (Float driver) at the coef_ of real converged fits (13 class / family x link pairs, n vs m, weights, lam, constraints) on the exported model matrix, penalties, weights and mask, by validating the LAPACK contracts on captured loop locals, and by a NumPy backward-error / Newton-step stationarity oracle and closed-form check.',
+   note=NOTE_COMMON + 'PARTIAL: LAPACK qr/svd and the Cholesky factor are contracts (hypotheses), validated numerically per fit; IEEE rounding and the sqrt(eps) ridge are not modelled (stationarity is judged as normwise backward error <= 1e-6 and Newton step <= max(1e-6, 10 eps cond), problems with cond > 4.5e11 are judged on backward error only); the per-coordinate HasDerivAt form of the score equation is assembled from C06/C07 theorems, not restated as one theorem.',
+   technique='Lean 4 theorems (Matrix algebra over a field, big-operator algebra) + Float-model correspondence at real fits + contract validation',
+   ref='7/C01'),
+ 'C02': dict(
+   text='Theorems for every term list, coefficient vector and row: the linear predictor is the sum over all terms of the partial dependence (the intercept contributing its coefficient); partial dependence depends only on the columns the term reads (own feature(s), by-variables); default grids have n (n^k) rows, are uniform between the edge knots with the by-variable one and other columns zero, row-major ij mesh for tensors. Tied to /repo by exact rational evaluation of linPred / partialDep / gridRow on exported coef_ and compiled terms of fitted models of 7 classes vs link(predict_mu), partial_dependence, generate_X_grid.',
+   note=NOTE_COMMON + 'The inverse-link step mu = g^-1(lp) is C07; rows with |lp| > 30 are not compared through link(mu) (saturation). General k-way tensor grid formula proved for k = 2 (digits formula is definitional in the model for all k).',
+   technique='Lean 4 theorems (list induction, sum splitting) + exact-rational correspondence on fitted models',
+   ref='7/C02'),
+ 'C09': dict(
+   text='Theorems over R with the quantile functions as parameters under the contract (strictly increasing, antisymmetric): width w = quantiles [(1-w)/2,(1+w)/2]; levels outside (0,1) (incl. NaN, through width too) rejected exactly; bound formula g^-1(lp + z_q sqrt(row cov row [+ scale])) with normal / t(n - edof) quantiles; ordered in q, bracket the prediction, nested in the width, prediction intervals contain confidence intervals; partial-dependence intervals use only the term block. Tied to /repo by recomputing every bound in the Float driver from exported cov, edof, scale, rows and SciPy quantiles for 13 model variants incl. extrapolation.',
+   note=NOTE_COMMON + 'SciPy norm.ppf / t.ppf are trusted parameters (contract validated on a grid each run: monotone exactly, antisymmetric to 1e-7).',
+   technique='Lean 4 theorems over R + Float-model correspondence + SciPy contract validation',
+   ref='7/C09'),
+ 'C10': dict(
+   text='Theorems about the search logic: combine = Cartesian product (length, membership, order last-fastest, no duplicates), the three grid-shape rules and their rejections, objective selection table, best = earliest argmin over evaluated candidates (and self if fitted), keep_best semantics, candidate accounting. Tied to /repo by scripted-fit runs of the real gridsearch (candidates, order, winner, self afterwards, exceptions) and by real searches compared with independent cold fits of every candidate.',
+   note=NOTE_COMMON + 'PARTIAL: "score of a candidate = score of an independent fit" is about fitting (C01) and is checked on the real code against cold fits, not proved. Three recorded known findings (fit_intercept grid ignored; sequential validation drops joint candidates; plural setter AttributeError).',
+   technique='Lean 4 theorems (list / fold induction) + differential correspondence incl. scripted fits',
+   ref='7/C10'),
+ 'C17': dict(
+   text='Theorems about the deterministic pipeline around the random generators (generators as oracle arguments): argument rejection, output shapes, exactly (coef_, cov + sqrt(eps) I, n_draws) reach the multivariate-normal generator with one bootstrap, draw d comes from bootstrap idx[d], mean draws = inverse link of the model matrix times the draws, response draws use the family sampler parameters of C06. Tied to /repo by patching numpy.random.* to record arguments and return supplied draws and comparing with the driver exactly.',
+   note=NOTE_COMMON + 'PARTIAL: the distributional claim rests on NumPy generators (trusted); seeded statistical checks of real draws are supporting evidence (thorough tier). n_bootstraps > 1: only grouping / order / sizes are checked.',
+   technique='Lean 4 theorems about the sampling pipeline + argument-capture correspondence',
+   ref='7/C17'),
+ 'C18': dict(
+   text='Theorems: asymmetric weight table; expectile balance tau sum_{r>0} w r = (1-tau) sum_{r<=0} w |r| + A00 b0 at a fixed point with an intercept; expectile 0.5 = LinearGAM with doubled penalty (normal equations coincide); fit_quantile: argument rejection, bisection invariant 0 <= min < e < max <= 1, each step moves toward the target, expectiles strictly inside (0,1), at most max_iter refits, postcondition within tol or budget exhausted. Tied to /repo by real ExpectileGAM fits (balance, half = linear), traced fit_quantile runs compared bitwise (Float) and exactly (Rat) with the model bisection.',
+   note=NOTE_COMMON + 'PARTIAL: IEEE midpoint rounding beyond ~52 halvings is outside the theorems (max_iter <= 40 in the harness); the balance holds up to the sqrt(eps) ridge term, not exactly.',
+   technique='Lean 4 theorems (ordered-field algebra, state-machine invariant) + traced differential correspondence',
+   ref='7/C18'),
+ 'C19': dict(
+   text='Theorems: exposure conversion = (y/e, w e) incl. float32 casts, omitted exposure = exposure one, e dev(y/e, r) = dev(y, e r), PIRLS weights / pseudo-data of the rate fit equal those of the count model with offset log e, predict = e x rate, rounding recovers counts, log-likelihood = Poisson log-pmf at rate x exposure. Tied to /repo by PoissonGAM.fit / gridsearch / predict / loglikelihood vs GAM fits on rates with weights, an independent NumPy offset-GLM solve and SciPy logpmf.',
+   note=NOTE_COMMON + 'fit = base fit o conversion is definitional in the model; its content is carried by the fit.rates / gridsearch / offset-glm streams. Non-float32-representable exposures are compared at 1e-6 (the code casts to float32).',
+   technique='Lean 4 theorems (field algebra, log identities over R) + differential correspondence',
+   ref='7/C19'),
+ 'C20': dict(
+   text='Theorems about the optimiser loop model (fuel = max_iter, abstract step / diff): 1 <= iterations <= max_iter, stops at the first recorded diff below tol, not-converged iff no diff below tol, statistics always populated, one log entry per callback hook per iteration (logs appended across refits), logged deviance / coef / accuracy are those of the coefficients entering the iteration, final coef = last step, every model class forwards callbacks and optimiser arguments, hooks bind argument names only. Tied to /repo by fits of 14 class variants with every subset of built-in and user callbacks, max_iter 1..30 and tol placed on / around recorded diffs, replaying the model on the recorded diffs and recomputing logged quantities with NumPy.',
+   note=NOTE_COMMON + 'The PIRLS step itself is abstract here (C01). Observed quirks mirrored by the model: the first recorded diff of non-Linear models is a broadcast norm; the Deviance callback logs the unweighted deviance.',
+   technique='Lean 4 theorems (induction over fuel, list lemmas) + trace correspondence',
+   ref='7/C20'),
  'C03': dict(
    text='Theorems for every order, number of functions, pair of distinct edge knots and x over any linear ordered field: inside the knot range (both edges) rows of the modelled basis are non-negative, sum to one and have at most order+1 consecutive non-zeros; outside, rows of order >= 1 are affine in x with the boundary value as intercept and still sum to one; the basis is invariant under positive affine maps of (x, knots); periodic rows are non-negative, sum to one and repeat with the knot range; default knots = (min, max). Tied to /repo by comparing exact rational rows of the model with b_spline_basis (dense, sparse) and SplineTerm.build_columns over the full product of orders x sizes x periodic x knot pairs at knots, boundaries, cell interiors, far outside and literal-seeded points.',
    note=NOTE_COMMON + 'IEEE rounding is not modelled (model rows are exact rationals of the float inputs; agreement to 1e-9); order-0 rows are not sampled on interior knots (float rescaling may flip a half-open cell); the slope of the continuation is tied to the derivative only through the correspondence and a finite-difference oracle, not by a theorem.',
@@ -37,7 +77,7 @@ CHECKS = {
    technique='Lean 4 theorems (list induction, Nat div/mod index algebra, C03 basis lemmas) + exact-rational differential correspondence on random term programs',
    ref='7/C16'),
 }
-PENDING = ['C01','C02','C08','C09','C10','C11','C12','C13','C14','C15','C17','C18','C19','C20']
+PENDING = ['C08','C11','C12','C13','C14','C15']
 
 def main():
     checks = []
